@@ -1,6 +1,7 @@
 From Coq Require Import List NArith Bool.
 From V.gen Require Consts.
-From V.C02 Require Import Model Proofs Tamper Duplex Buffer.
+From V.gen Require NoiseKinds.
+From V.C02 Require Import Model Proofs Tamper Duplex Buffer Kinds.
 Import ListNotations.
 Open Scope N_scope.
 From V.C02 Require Import Properties.
@@ -130,8 +131,15 @@ Check (C02_connection :
   ok = true /\ GInv c A B /\
   f_D A <= clean_prefix (f_items A) (f_plains A) 0 (f_avail A) /\
   f_D B <= clean_prefix (f_items B) (f_plains B) 0 (f_avail B)).
+Check (C02_error_kinds :
+  (V.gen.NoiseKinds.noise_kind_codes = table_codes /\
+   forallb (fun k => ecode k =? k) V.gen.NoiseKinds.noise_kind_codes = true) /\
+  V.gen.NoiseKinds.noise_read_kinds = [E_EOF; E_INVALID; E_PERM] /\
+  V.gen.NoiseKinds.noise_write_kinds = [E_INVALID; E_WRITEZERO]).
 Check (C02_constants :
   1 <= V.gen.Consts.MAX_FRAME_LEN /\ V.gen.Consts.MAX_FRAME_LEN + TAG <= SNOW_MAX /\
-  1 <= V.gen.Consts.MAX_READ_AHEAD_FACTOR /\ 1 <= V.gen.Consts.MAX_WRITE_BUFFER_SIZE).
+  1 <= V.gen.Consts.MAX_READ_AHEAD_FACTOR /\ 1 <= V.gen.Consts.MAX_WRITE_BUFFER_SIZE /\
+  1 <= V.gen.Consts.TCP_NOISE_READ_AHEAD_DEFAULT /\ 1 <= V.gen.Consts.TCP_NOISE_WRITE_BUFFER_DEFAULT /\
+  1 <= V.gen.Consts.WS_NOISE_READ_AHEAD_DEFAULT /\ 1 <= V.gen.Consts.WS_NOISE_WRITE_BUFFER_DEFAULT).
 Check (C02_unfixed_refuted :
   exists len sc, fst (fst (poll_write (mkCfg 5 2 65520) len sc writer_init)) = WErr E_INVALID).
